@@ -152,7 +152,7 @@ func init() {
 			}
 		}})
 
-	register(&Rule{ID: "C01.pair.undelegate", Props: []string{"C01", "C02"}, Floor: 7,
+	register(&Rule{ID: "C01.pair.undelegate", Props: []string{"C01", "C02", "C17"}, Floor: 7,
 		Doc: "Undelegate: amount subtracted from TotalTokens == balance of the queued unbonding entry; both on every success path; no custody movement",
 		Run: func(e *Engine, r *RuleRun) {
 			fn := r.Need("keeper.Keeper.Undelegate")
@@ -269,7 +269,7 @@ func init() {
 			r.OK(fk, "no custody movement (tree scanned)", fmt.Sprintf("%d functions in the call tree scanned", len(e.Reach(fn))))
 		}})
 
-	register(&Rule{ID: "C01.pair.complete", Props: []string{"C01", "C02"}, Floor: 6,
+	register(&Rule{ID: "C01.pair.complete", Props: []string{"C01", "C02", "C17"}, Floor: 6,
 		Doc: "CompleteUnbondings: per matured bucket every entry is paid its Balance to its delegator and the bucket is deleted",
 		Run: func(e *Engine, r *RuleRun) {
 			fn := r.Need("keeper.Keeper.CompleteUnbondings")
@@ -339,7 +339,7 @@ func init() {
 			}
 		}})
 
-	register(&Rule{ID: "C01.pair.takerate", Props: []string{"C01", "C09"}, Floor: 6,
+	register(&Rule{ID: "C01.pair.takerate", Props: []string{"C01", "C09", "C17"}, Floor: 6,
 		Doc: "DeductAssetsWithTakeRate: coin deducted == old - new total of the same asset; persisted; accumulated; sent once",
 		Run: func(e *Engine, r *RuleRun) {
 			fn := r.Need("keeper.Keeper.DeductAssetsWithTakeRate")
@@ -442,7 +442,7 @@ func init() {
 			r.Check(!fa.blockReaches(send.Block(), phi.Block()), fk, "sent once", "the transfer is outside the asset loop", "the transfer is inside the asset loop: the accumulator would be sent repeatedly", r.P(send))
 		}})
 
-	register(&Rule{ID: "C01.pair.slash", Props: []string{"C01", "C07"}, Floor: 5,
+	register(&Rule{ID: "C01.pair.slash", Props: []string{"C01", "C07", "C17"}, Floor: 5,
 		Doc: "slashUndelegations: amount removed from an entry == amount sent to the fee collector == trunc(fraction*balance); bucket written back under its key",
 		Run: func(e *Engine, r *RuleRun) {
 			fn := r.Need("keeper.Keeper.slashUndelegations")
